@@ -9,7 +9,9 @@
 //! up to order 12, and from every full-rank lattice data set of up to 5 rows — also rescaled by
 //! powers of two (round 2) and shifted by a large common offset vector (round 3); and (round 4) from
 //! the structured SPD families at orders up to 30 with variances down to 2^-40 and from 8- / 12-column
-//! data sets of small spread, where the determinant leaves the range of the type.
+//! data sets of small spread, where the determinant leaves the range of the type; and (round 5) from
+//! data sets with 17..113 (thorough: up to 1039) rows, and on vectors with one large and one tiny
+//! coordinate that differ only in the tiny one.
 //!
 //! The oracle is a double-double evaluation of the closed forms (module `dd`), the metric axioms,
 //! the coincidence clauses and the rejection of mismatched lengths.
@@ -248,6 +250,8 @@ fn lp_catalogue<T: Fl>(job: &Job) -> Cat<T> {
             cat::lattice(cat::alphabet(job.s("alpha")), job.u("len")).into_iter().map(|v| (String::new(), v.iter().map(|x| a * x + b).collect())).collect()
         }
         "structured" => cat::structured(job.u("len"), job.b("full")),
+        // round 5: one large and one tiny coordinate per vector (the values depend on the type)
+        "wide" => cat::wide(T::NAME, job.u("len"), job.b("full")),
         other => panic!("unknown vector source {}", other),
     };
     build_cat::<T>(vs, scale)
@@ -499,6 +503,29 @@ fn lp_exec<T: Fl>(job: &Job) {
         let o = judge_pair::<T>(m.comp(), &m.label(), class, same, d, refv, m.tol_units(n, refv), &ctx);
         digest = mc::hash::mix(digest, mc::hash::canon_bits(o.dxy));
         obs.push(Some(o));
+    }
+    // round 5 (wide-range catalogue): pairs that share the large coordinate and differ only in the
+    // tiny one — the expected distance is the tiny gap itself (machinery check of the reference), and
+    // the library has to return it (not 0) unless a power of the gap leaves the range of T
+    if job.s("src") == "wide" && !same && df.mismatches() == 1 {
+        let b = (0..n).find(|k| xv[*k] != yv[*k]).expect("one differing coordinate");
+        let gap = (xv[b] - yv[b]).abs();
+        let largest = xv.iter().fold(0.0f64, |m, v| m.max(v.abs()));
+        if gap <= 1e-9 * largest {
+            assert!(gap > 0.0 && (refs[0] - gap).abs() <= 1e-15 * gap && (refs[1] - gap).abs() <= 1e-15 * gap, "reference of a tiny-gap pair is not the gap: x={:?} y={:?} gap {:e} euclid {:e} manhattan {:e}", xv, yv, gap, refs[0], refs[1]);
+            mc::count("wide_range_tiny_gap_pairs");
+            for (mi, m) in METS.iter().enumerate() {
+                if matches!(m, Met::HaF | Met::HaI) {
+                    continue;
+                }
+                let Some(o) = &obs[mi] else { continue };
+                if l2.and_then(|l| m.range_class::<T>(n, l)).is_some() {
+                    mc::count("wide_range_tiny_gap_checks_power_out_of_range");
+                } else if o.ok && o.dxy > 0.0 && o.dxy.is_finite() {
+                    mc::count("wide_range_tiny_gap_checks_in_tolerance");
+                }
+            }
+        }
     }
     // coincidence clauses
     let coincide = |a: usize, b: usize, comp: &str, clause: &str| {
@@ -952,10 +979,11 @@ struct AllPairs {
 /// All clauses for every ordered pair and every ordered triple of the query catalogue `q` under the
 /// library instance `md`; `inv` is the double-double inverse of the exact covariance.
 #[allow(clippy::too_many_arguments)]
-fn judge_all_pairs<T: Fl>(md: &Mahalanobis<T, DenseMatrix<T>>, inv: &[Vec<dd::DD>], q: &Cat<T>, n: usize, cond: f64, label: &str, what: &dyn Fn() -> String) -> AllPairs {
+fn judge_all_pairs<T: Fl>(md: &Mahalanobis<T, DenseMatrix<T>>, inv: &[Vec<dd::DD>], q: &Cat<T>, n: usize, cond: f64, extra_units: f64, label: &str, what: &dyn Fn() -> String) -> AllPairs {
     let nq = q.typed.len();
     let inv_max = inv.iter().flatten().fold(0.0f64, |m, v| m.max(v.hi.abs()));
-    let units = maha_tol_units(n, cond);
+    // `extra_units` is 0 for every family except data with a common offset (see `shift_extra_units`)
+    let units = maha_tol_units(n, cond) + extra_units;
     let mut r = AllPairs { digest: 0x21, distinct: 0, in_tol: 0, max_ratio: 0.0, max_cond_units: 0.0, triples: 0, dist: vec![vec![f64::NAN; nq]; nq] };
     for i in 0..nq {
         for j in 0..nq {
@@ -1066,7 +1094,7 @@ fn mcovl_exec<T: Fl>(job: &Job) {
     let Some(inv) = dd::inverse(&dd::dd_mat(sigma)) else {
         panic!("reference inverse failed on a catalogue matrix {:?}", sigma);
     };
-    let r = judge_all_pairs::<T>(&md, &inv, q, n, *cond, "Mahalanobis", &what);
+    let r = judge_all_pairs::<T>(&md, &inv, q, n, *cond, 0.0, "Mahalanobis", &what);
     mc::count_n("maha_large_order_pairs", r.distinct);
     mc::count_n("maha_large_order_pairs_in_tolerance", r.in_tol);
     if (0..n).any(|a| (0..n).any(|b| a != b && sigma[a][b] != 0.0)) {
@@ -1120,7 +1148,7 @@ fn mdatal_exec<T: Fl>(job: &Job) {
     let Some(inv) = dd::inverse(&cov) else { panic!("reference inverse failed for full-rank data {:?}", rows) };
     let qraw: Vec<(String, Vec<f64>)> = cat::structured(d, false).into_iter().map(|(nm, v)| (nm, v.iter().zip(&cscale).map(|(x, c)| x * c).collect())).collect();
     let q = build_cat::<T>(qraw, 1.0);
-    let r = judge_all_pairs::<T>(&md, &inv, &q, d, cond, "Mahalanobis(from data)", &what);
+    let r = judge_all_pairs::<T>(&md, &inv, &q, d, cond, 0.0, "Mahalanobis(from data)", &what);
     mc::count_n("maha_data_large_pairs", r.distinct);
     mc::count_n("maha_data_large_pairs_in_tolerance", r.in_tol);
     mc::count("data_sets_full_rank");
@@ -1130,6 +1158,129 @@ fn mdatal_exec<T: Fl>(job: &Job) {
     mc::nontrivial();
     mc::outcome(mc::hash::mix(0x22, r.digest));
     mc::describe(|| json!({"family": "mahalanobis from data, 8 / 12 columns of small spread", "type": T::NAME, "design": cat::BIG_DESIGNS[design], "column_scaling": cat::BIG_COLSCALES[variant], "rows": rows, "sample_covariance": covf, "cond2": cond, "log2_det": log2det, "query_points": q.vals, "library_distances": r.dist}));
+}
+
+// ------------------------------------------------------------------------------------------------
+// round 5: Mahalanobis from data with many rows (17 .. 113 quick, up to 1039 thorough): column means
+// and covariances over more than one 16-row block, pairs of blocks, runs longer than 64. One
+// execution = one data set (pattern, number of rows, common offset): one construction by the
+// library, then every ordered pair and triple of 5 query points.
+
+fn mdatam_exec<T: Fl>(job: &Job) {
+    let d = job.u("d");
+    let ms: Vec<usize> = job.params["ms"].as_array().expect("row counts").iter().map(|v| v.as_u64().expect("row count") as usize).collect();
+    let offs: Vec<f64> = job.params["offs"].as_array().expect("offsets").iter().map(|v| v.as_f64().expect("numeric offset")).collect();
+    let pats: Vec<usize> = job.params["patterns"].as_array().expect("patterns").iter().map(|v| v.as_u64().expect("pattern") as usize).collect();
+    let m = ms[mc::choose(ms.len())];
+    let pattern = pats[mc::choose(pats.len())];
+    let off = offs[mc::choose(offs.len())];
+    let rows_int = cat::many_rows_data(d, m, pattern);
+    // guards of the family definition (machinery errors, not verdicts): full rank (exact), the
+    // offset keeps the integers exact in T, and every column sum is an integer that T represents
+    // exactly (so a correctly computed mean is the correctly rounded quotient, as in round 3)
+    assert!(cat::full_rank_gram(&rows_int), "many-rows data set '{}' d={} m={} is rank deficient", cat::MANY_PATTERNS[pattern], d, m);
+    let rows: Vec<Vec<f64>> = rows_int.iter().map(|r| r.iter().map(|v| T::of(v + off).f()).collect()).collect();
+    for (r, ri) in rows.iter().zip(&rows_int) {
+        for j in 0..d {
+            assert!(r[j] - off == ri[j] && T::of(off).f() == off, "offset {} does not keep the integers exact in {}", off, T::NAME);
+        }
+    }
+    for j in 0..d {
+        let s: f64 = rows.iter().map(|r| r[j]).sum();
+        assert!(s.abs() <= 1.0 / T::EPS, "column sum {} of the many-rows family is not exact in {}", s, T::NAME);
+    }
+    let cov = dd::sample_cov(&rows);
+    let covf: cat::Mat = cov.iter().map(|r| r.iter().map(|v| v.to_f64()).collect()).collect();
+    let cond = cond2_any_scale(&covf);
+    assert!(cond <= 1e4, "many-rows data set '{}' d={} m={}: cond2 {} > 1e4", cat::MANY_PATTERNS[pattern], d, m, cond);
+    let mu: Vec<f64> = (0..d).map(|j| rows.iter().map(|r| r[j]).sum::<f64>() / m as f64).collect();
+    let spread2 = (0..d).fold(0.0f64, |s, j| s.max(covf[j][j]));
+    // Tolerance of this family, in eps_T relative to the closed form: (8 + 2 d^2 + m) * cond2 (+ the
+    // round-3 offset term). The term m * cond2 is what the m-term accumulations cost that define the
+    // sample covariance: a recursive sum of m rounded products is accurate to (m-1) eps/2 relative
+    // to the sum of the magnitudes at best (Higham, Accuracy and Stability, section 4.2), a relative perturbation of
+    // that size of the covariance entries moves the distance by up to cond2 * d/2 times it — with
+    // m <= 7 (16) rows in the older families this was covered by the constant. Observed on the
+    // unchanged library: <= 6.3 eps at m = 113 (d = 1, cond2 = 1), growing like sqrt(m).
+    // The second-order effect of a mean that is off by eps*|mean| (round 3) is 0.03 d cond2 units for
+    // f32 at offset 1000 and nothing at offset 0.
+    let extra_units = m as f64 * cond + if off != 0.0 { shift_extra_units::<T>(&mu, spread2, cond) } else { 0.0 };
+    let what = || format!("data set '{}' with {} rows, {} column(s), common offset {} (column means {:?}, sample covariance {:?}, cond2 {:.2}) rows {:?} [{}]", cat::MANY_PATTERNS[pattern], m, d, off, mu, covf, cond, rows, T::NAME);
+    mc::count("maha_many_rows_sets");
+    if m > 64 {
+        mc::count("maha_many_rows_sets_longer_than_64");
+    }
+    if m % 16 != 0 {
+        mc::count("maha_many_rows_sets_with_partial_16_row_block");
+    }
+    let md = match mc::guard(|| Distances::mahalanobis(&mc_sc::dm::<T>(&rows))) {
+        Ok(v) => v,
+        Err(p) => {
+            viol!("mahalanobis.new:panic", format!("{}: construction from full-rank, well-conditioned data failed: {}", what(), p.brief()));
+            mc::nontrivial();
+            mc::outcome(mc::hash::mix(0x23, 1));
+            mc::describe(|| json!({"family": "mahalanobis from data, many rows", "type": T::NAME, "pattern": cat::MANY_PATTERNS[pattern], "rows": rows, "common_offset": off, "sample_covariance": covf, "cond2": cond, "observed": p.brief()}));
+            return;
+        }
+    };
+    let Some(inv) = dd::inverse(&cov) else { panic!("reference inverse failed for full-rank data {:?}", rows) };
+    let qint = cat::many_rows_queries(d);
+    let q = build_cat::<T>(qint.iter().enumerate().map(|(k, v)| (format!("q{}", k), v.iter().map(|x| x + off).collect())).collect(), 1.0);
+    let r = judge_all_pairs::<T>(&md, &inv, &q, d, cond, extra_units, "Mahalanobis(from data)", &what);
+    mc::count("data_sets_full_rank");
+    mc::count_n("maha_many_rows_pairs", r.distinct);
+    mc::count_n("maha_many_rows_pairs_in_tolerance", r.in_tol);
+    // with an offset: the reference covariance must be translation invariant (machinery check), and
+    // the library's distances must agree with its own result on the unshifted rows and points
+    let mut agree = 0u64;
+    if off != 0.0 {
+        let rows0: Vec<Vec<f64>> = rows_int.iter().map(|r| r.iter().map(|v| T::of(*v).f()).collect()).collect();
+        let cov0 = dd::sample_cov(&rows0);
+        for a in 0..d {
+            for b in 0..d {
+                let err = cov[a][b].sub(cov0[a][b]).to_f64().abs();
+                assert!(err <= 1e-20 * (cov0[a][a].to_f64() * cov0[b][b].to_f64()).sqrt(), "reference covariance not translation invariant for rows {:?}", rows);
+            }
+        }
+        match mc::guard(|| Distances::mahalanobis(&mc_sc::dm::<T>(&rows0))) {
+            Ok(md0) => {
+                let q0 = build_cat::<T>(qint.iter().map(|v| (String::new(), v.clone())).collect(), 1.0);
+                let units0 = maha_tol_units(d, cond);
+                let units = units0 + extra_units;
+                for i in 0..q.typed.len() {
+                    for j in 0..q.typed.len() {
+                        let ds = r.dist[i][j];
+                        if i == j || ds.is_nan() {
+                            continue;
+                        }
+                        let refv = dd::diff(&q0.vals[i], &q0.vals[j]).quadratic(&inv).to_f64();
+                        match mc::guard(|| md0.distance(&q0.typed[i], &q0.typed[j]).f()) {
+                            Ok(d0) => {
+                                if !((ds - d0).abs() <= (units + units0) * T::EPS * refv || ds == d0) {
+                                    viol!(
+                                        "mahalanobis.distance:translation-invariance",
+                                        format!("Mahalanobis(from data) {} x={:?} y={:?}: d(x,y) = {:e} but the unshifted rows and points x={:?} y={:?} give {:e} (closed form of both {:e})", what(), q.vals[i], q.vals[j], ds, q0.vals[i], q0.vals[j], d0, refv),
+                                    );
+                                } else {
+                                    agree += 1;
+                                }
+                            }
+                            Err(p) => viol!("mahalanobis.distance:panic", format!("Mahalanobis(from data) rows {:?} x={:?} y={:?} [{}]: {}", rows0, q0.vals[i], q0.vals[j], T::NAME, p.brief())),
+                        }
+                    }
+                }
+            }
+            Err(p) => viol!("mahalanobis.new:panic", format!("data rows {:?} [{}]: {}", rows0, T::NAME, p.brief())),
+        }
+        mc::count("maha_many_rows_shifted_sets");
+    }
+    mc::count_n("maha_many_rows_shifted_pairs_agree_with_unshifted", agree);
+    if big_info() {
+        eprintln!("BIGINFO mrows {} d={} m={} '{}' off={} cond={:.2} pairs={} in_tol={} max_ratio={:.5} max_cond_units={:.3} extra_units={:.3e}", T::NAME, d, m, cat::MANY_PATTERNS[pattern], off, cond, r.distinct, r.in_tol, r.max_ratio, r.max_cond_units, extra_units);
+    }
+    mc::nontrivial();
+    mc::outcome(mc::hash::mix(0x23, r.digest));
+    mc::describe(|| json!({"family": "mahalanobis from data, many rows", "type": T::NAME, "pattern": cat::MANY_PATTERNS[pattern], "rows_count": m, "rows": rows, "common_offset": off, "sample_covariance": covf, "cond2": cond, "query_points": q.vals, "library_distances": r.dist}));
 }
 
 // ------------------------------------------------------------------------------------------------
@@ -1211,6 +1362,8 @@ fn dispatch(job: &Job) {
         ("mcovl", true) => mcovl_exec::<f32>(job),
         ("mdatal", false) => mdatal_exec::<f64>(job),
         ("mdatal", true) => mdatal_exec::<f32>(job),
+        ("mdatam", false) => mdatam_exec::<f64>(job),
+        ("mdatam", true) => mdatam_exec::<f32>(job),
         ("mismatch", false) => mismatch_exec::<f64>(job),
         ("mismatch", true) => mismatch_exec::<f32>(job),
         (other, _) => panic!("unknown job kind {}", other),
@@ -1227,7 +1380,11 @@ fn push_lp(jobs: &mut Vec<Job>, src: &str, alpha: &str, len: usize, full: bool, 
     let chunks = chunks.max(1).min(count.max(1));
     for c in 0..chunks {
         let (lo, hi) = (count * c / chunks, count * (c + 1) / chunks);
-        let what = if src == "lattice" { format!("{}^{}", alpha, len) } else { format!("structured{}-n{}", if full { "-full" } else { "" }, len) };
+        let what = match src {
+            "lattice" => format!("{}^{}", alpha, len),
+            "wide" => format!("wide-range{}-n{}", if full { "-full" } else { "" }, len),
+            _ => format!("structured{}-n{}", if full { "-full" } else { "" }, len),
+        };
         let name = format!("lp-{}{}-x1e{}x2^{}-{}-part{}of{}", what, if tri { "" } else { "-pairs" }, sc10, sc2, ty, c + 1, chunks);
         jobs.push(Job::new(name, json!({"kind": "lp", "src": src, "alpha": alpha, "len": len, "full": full, "tri": tri, "sc10": sc10, "sc2": sc2, "ty": ty, "lo": lo, "hi": hi, "seed": seed})));
     }
@@ -1503,6 +1660,37 @@ impl Harness for C17 {
                 }
             }
         }
+        // ---- round 5 (a): Mahalanobis from data with many rows. Quick: one job per (d, type) with
+        // every (row count, pattern, offset) as its executions; thorough: one job per (d, type, pattern).
+        let many_ms = cat::many_rows_counts(t);
+        let many_ds: Vec<usize> = if t { vec![1, 2, 3, 4] } else { vec![1, 2, 3] };
+        let many_patterns: Vec<usize> = if t { vec![0, 1, 2] } else { vec![0, 1] };
+        let many_offsets = |ty: &str| -> Vec<f64> {
+            match (t, ty) {
+                (false, _) => vec![0.0, 1000.0],
+                (true, "f32") => vec![0.0, 1000.0, 4096.0, -300.0],
+                (true, _) => vec![0.0, 1000.0, 1e6, -3e5],
+            }
+        };
+        for d in &many_ds {
+            for ty in TYPES {
+                let groups: Vec<Vec<usize>> = if t { many_patterns.iter().map(|p| vec![*p]).collect() } else { vec![many_patterns.clone()] };
+                for g in groups {
+                    let label = g.iter().map(|p| p.to_string()).collect::<Vec<_>>().join("+");
+                    jobs.push(Job::new(format!("mdata-manyrows-d{}-patterns{}-{}", d, label, ty), json!({"kind": "mdatam", "d": d, "ms": many_ms, "patterns": g, "offs": many_offsets(ty), "ty": ty})));
+                }
+            }
+        }
+        // ---- round 5 (b): vectors whose components differ by many orders of magnitude (one large
+        // and one tiny coordinate; pairs that differ only in the tiny one), all 13 metrics, every
+        // ordered pair and triple of the catalogue
+        let wide_lens: &[usize] = if t { &[2, 3, 4] } else { &[2, 3] };
+        for len in wide_lens {
+            for ty in TYPES {
+                let count = cat::wide(ty, *len, t).len();
+                push_lp(&mut jobs, "wide", "-", *len, t, count, if count > 100 { 4 } else { 1 }, true, 0, 0, ty, seed);
+            }
+        }
         Plan {
             jobs,
             budget_s: if t { 2700 } else { 40 },
@@ -1534,6 +1722,13 @@ impl Harness for C17 {
                 ("maha_data_large_constructed", 150),
                 ("maha_data_large_det_outside_range_of_type", 50),
                 ("maha_data_large_pairs_in_tolerance", 50_000),
+                // round 5 (quick: 288 / 96 / 5760 / 2880; 96 / 736 + replays of known-finding cases)
+                ("maha_many_rows_sets", 250),
+                ("maha_many_rows_sets_longer_than_64", 80),
+                ("maha_many_rows_pairs_in_tolerance", 5_000),
+                ("maha_many_rows_shifted_pairs_agree_with_unshifted", 2_500),
+                ("wide_range_tiny_gap_pairs", 90),
+                ("wide_range_tiny_gap_checks_in_tolerance", 700),
             ],
             bounds: json!({
                 "types": "f64 and f32 for every family",
@@ -1548,6 +1743,8 @@ impl Harness for C17 {
                 "mahalanobis_tiny_and_huge_scales": format!("round 2 — new_from_covariance: every integer SPD 2x2 with |entries|<=3{} times 2^k with the query lattice times 2^(k/2), k in {:?} (f64) / {:?} (f32), all pairs and triples; from-data constructor: the (d, m) families {:?} with data rows and query points times 2^k, k in {:?} (f64) / {:?} (f32){}; same double-double closed form and the same (8+2n^2)*cond2 eps relative tolerance (cond2 is scale-invariant)", if t { " and every integer SPD 3x3 of the thorough set" } else { "" }, rescale_exponents("f64"), rescale_exponents("f32"), rescaled_shapes.iter().map(|(d, m, o)| format!("d={} m={} {}", d, m, if *o { "sequences" } else { "multisets" })).collect::<Vec<_>>(), DS_X64, DS_X32, if t { " (f32 at 2^±20 is part of the older data-scale list)" } else { "" }),
                 "mahalanobis_data_common_offset": format!("round 3 — from-data constructor on the (d, m) families {:?} (every sequence / multiset of lattice rows with positive-definite sample covariance) with one common offset vector added to every data row and every query point, lattice spacing 1 kept exactly: offsets f64 d=1 {:?}, d=2 {:?}{}; f32 d=1 {:?}, d=2 {:?}{}; all ordered pairs and triples of the shifted query points; closed form (double-double, checked to be translation invariant to 1e-20), symmetry, d(x,x)=0, triangle, and agreement with the library's result on the unshifted data; tolerance (8+2d^2)*cond2 + cond2*eps*|mean|^2/max column variance, in eps relative", shifted_shapes.iter().map(|(d, m, o)| format!("d={} m={} {}", d, m, if *o { "sequences" } else { "multisets" })).collect::<Vec<_>>(), shift_offsets("f64", 1), shift_offsets("f64", 2), if t { format!(", d=3 {:?}", shift_offsets("f64", 3)) } else { String::new() }, shift_offsets("f32", 1), shift_offsets("f32", 2), if t { format!(", d=3 {:?}", shift_offsets("f32", 3)) } else { String::new() }),
                 "mahalanobis_larger_orders_small_variances": format!("round 4 — new_from_covariance: the structured SPD families (identity, Toeplitz(2,-1), min(i,j), ones*ones'+I, ramp*ramp'+2I, graded diagonal 10^(-3i/(n-1)), D*Toeplitz*D; all 7 have cond2 <= 1e4 at every order used) of order {:?}, each times 2^k, k in {:?}, in f64 and f32 (no combination is skipped: the smallest matrix entry is 1e-3 * 2^-40, a normal f32), on the {} structured vector catalogue of that length times 2^floor(k/2); one execution = one matrix (one construction), every ordered pair and triple of the catalogue inside. From data (Distances::mahalanobis): d in {:?} columns, m = d+2..d+4 rows, the {} deterministic integer designs {:?} times the {} column scalings {:?} (column variances about 1e-5..3e-4, resp. 1e-7..3e-6 for 2^-10; 'x1' is the control), f64 and f32, every ordered pair and triple of the reduced structured catalogue of length d scaled per column. Construction must succeed (site mahalanobis.new_from_covariance|new:panic, or :panic-large-order-small-variance when the determinant — about variance^order — lies outside the normal range of the type although cond2 <= 1e4); then the same double-double closed form, axioms and (8+2n^2)*cond2 eps tolerance as the older Mahalanobis families", large_orders, LARGE_COV_EXP, if t { "full" } else { "reduced" }, large_data_cols, cat::BIG_DESIGNS.len(), cat::BIG_DESIGNS, cat::BIG_COLSCALES.len(), cat::BIG_COLSCALES),
+                "mahalanobis_data_many_rows": format!("round 5 — from-data constructor (Distances::mahalanobis) on deterministic small-integer data sets with d in {:?} columns and m in {} rows (more than one 16-row block, pairs of blocks, runs longer than 64), patterns {:?} (entry of row i, column c; every data set checked exactly to be full rank, cond2 <= 1e4 asserted), each also with the common offset(s) {:?} (f64) / {:?} (f32) added to every row and query point (all values and column sums exact in the type), f64 and f32; every ordered pair and triple of 5 query points {:?}; double-double closed form, d(x,x)=0, symmetry, non-negativity, triangle, agreement with the library's result on the unshifted data; tolerance (8+2d^2+m)*cond2 eps relative (+ the round-3 offset term): the m-term accumulation of the sample covariance is accurate to (m-1) eps/2 at best", many_ds, if t { format!("17..=288 and {:?}", &many_ms[272..]) } else { format!("{:?}", many_ms) }, many_patterns.iter().map(|p| cat::MANY_PATTERNS[*p]).collect::<Vec<_>>(), &many_offsets("f64")[1..], &many_offsets("f32")[1..], cat::many_rows_queries(3)),
+                "wide_range_vectors": format!("round 5 — all 13 metrics on every ordered pair and triple of the wide-range catalogue of length {:?}: one large coordinate L, one tiny coordinate g, fillers 0.5, -3; f32: L in {:?}, g in {:?}; f64: L in {:?}, g in {:?}; {}; pairs sharing L differ only by a gap 18..251 orders of magnitude below L and the distance must be that gap (not 0) unless a power of the gap itself leaves the range of the type (the known unscaled-powers findings: f32 gap 1e-20 for p >= 2, gap 1e-12 for p >= 4; f64 gap 2e-151 for p >= 3)", wide_lens, cat::wide_values("f32").0, cat::wide_values("f32").1, cat::wide_values("f64").0, cat::wide_values("f64").1, if t { "every ordered pair of positions for (L, g) and both signs of L" } else { "L first, g second, L positive (8 vectors per length and type)" }),
                 "mismatched_lengths": "every metric x lengths 0..4 x 0..4 (Mahalanobis of order 1..3) x {prefix-consistent, distinct} contents",
                 "seed": format!("perturbation {:?} (a*v+b) of the lattice alphabets", cat::perturbation(seed)),
             }),
@@ -1569,6 +1766,8 @@ impl Harness for C17 {
             "covariance from data = unbiased sample covariance (denominator m-1)".into(),
             "data with a common offset (round 3): the Mahalanobis allowance grows by cond2 * eps * |column means|^2 / (largest column variance) units — the second-order effect of a column mean that is off by up to eps*|mean|, which no two-pass covariance can avoid; the differences x - y of the shifted points are exact. A one-pass covariance is off by 1/eps times that".into(),
             "larger orders x small variances (round 4): a structured SPD matrix with cond2 <= 1e4 whose entries are all normal numbers of the type, and a data set whose double-double sample covariance has cond2 <= 1e4, are valid inputs of the constructors, whatever the magnitude of the determinant; a panic (the constructors unwrap the Result of the LU inverse, so an Err is a panic too) is a violation".into(),
+            "many rows (round 5): the Mahalanobis allowance of the from-data family with m >= 17 rows is (8+2d^2+m)*cond2 eps — a recursive m-term sum of rounded products is accurate to (m-1) eps/2 relative to the sum of magnitudes at best; the library uses at most 7 % of it".into(),
+            "wide-range vectors (round 5): for vectors that share a large coordinate and differ only in a tiny one the closed form is the tiny gap itself (asserted on the reference), and it is demanded whenever the powers of the gap are normal numbers of the type (otherwise the case belongs to the input class of the known unscaled-powers findings)".into(),
             "rejection of mismatched lengths = panic (the API returns a bare number)".into(),
             "no library RNG is involved in this property".into(),
         ]
@@ -1578,6 +1777,10 @@ impl Harness for C17 {
 fn main() {
     if let Err(e) = dd::self_test() {
         eprintln!("MACHINERY-ERROR: reference arithmetic self-test failed: {}", e);
+        std::process::exit(2);
+    }
+    if let Err(e) = cat::self_test() {
+        eprintln!("MACHINERY-ERROR: catalogue self-test failed: {}", e);
         std::process::exit(2);
     }
     mc::main(C17)
